@@ -56,6 +56,10 @@ def epilogue(g):
     g.finish()
 
 
+ERR_TOKENS = ["err", "err:timedout", "err:reset", "err:interrupted", "err:aborted", "err:brokenpipe", "err:notconnected", "err:unexpectedeof",
+              "err:other", "err:refused", "err:invaliddata", "err:permission"]
+
+
 def gen_faults(tier, seed):
     rng = Rng(seed * 67 + 5)
     cases = []
@@ -85,6 +89,9 @@ def gen_faults(tier, seed):
                 data = data[:off] + bad + data[off + len(bad):]
                 cut = rng.randint(1, max(1, len(data) - 1))
                 evs = ["c:" + data[:cut].hex(), "c:" + data[cut:].hex()]
+            elif kind == "err":
+                # every kind of I/O error other than would-block is fatal
+                evs = (["c:" + data[:k].hex()] if k else []) + [ERR_TOKENS[(k // stride) % len(ERR_TOKENS)]]
             else:
                 evs = (["c:" + data[:k].hex()] if k else []) + [kind]
             g.op("feed " + " ".join(evs))
@@ -98,7 +105,7 @@ def gen_faults(tier, seed):
     for pieces in range(0, 12 if tier == "quick" else 40):
         g, inbound, cl = base(Rng(1), pieces)
         g.op("ev 1")
-        g.op("wscript " + " ".join(["w:%d" % rng.choice([1, 3, 7, 20]) for _ in range(pieces)] + ["err"]))
+        g.op("wscript " + " ".join(["w:%d" % rng.choice([1, 3, 7, 20]) for _ in range(pieces)] + [ERR_TOKENS[pieces % len(ERR_TOKENS)]]))
         g.op("ev stream w" if pieces % 2 else "write")
         epilogue(g)
         n += 1
@@ -237,6 +244,6 @@ def suites(tier, seed):
               rule="real connection, real I/O thread and client threads over the mock transport: a consumer waiting, a call in flight, a publisher publishing, then EOF / reset / garbage bytes / write error / server Connection.Close / total silence with heartbeats: every thread released with an error within 5 s (2h+3 s for silence), Connection::close reports the root cause, the transport object is dropped"),
         Suite("faults", "machine", lambda: gen_faults(tier, seed), monitor=monitor, nontrivial=nontrivial, canon=mg.canon_nondet,
               candidate_ok=mg.candidate_ok, exhaustive=(tier != "quick"),
-              rule="a busy session (2 channels, consumer with deliveries, call in flight, queued submissions, return/confirm/blocked listeners) whose inbound stream of ~%s is cut by EOF / reset / a corrupted frame at %s byte offset, and whose writes fail at every write call of a flush in small pieces; afterwards every queue is polled to its end and every kind of submission is attempted" % (
+              rule="a busy session (2 channels, consumer with deliveries, call in flight, queued submissions, return/confirm/blocked listeners) whose inbound stream of ~%s is cut by EOF / an I/O error of each of 11 kinds (reset, timed out, interrupted, aborted, broken pipe, ...) / a corrupted frame at %s byte offset, and whose writes fail at every write call of a flush in small pieces; afterwards every queue is polled to its end and every kind of submission is attempted" % (
                   "330 bytes", "every 5th" if tier == "quick" else "EVERY")),
     ]
